@@ -68,4 +68,8 @@ func (c *memberEventCoalescer) Flush(outCh chan<- Event) {
 	for _, event := range events {
 		outCh <- *event
 	}
+
+	// Start the next quantum empty: an event is reported once, not at
+	// every later flush.
+	c.latestEvents = make(map[string]coalesceEvent)
 }
